@@ -23,12 +23,17 @@ func Repr(v any) string {
 	}
 
 	// 如果 v 的类型实现了 Stringer，我们不能使用 Elem()
+	val := reflect.ValueOf(v)
 	switch vt := v.(type) {
 	case fmt.Stringer:
+		// 空指针上的 String（值接收者方法）会解引用空指针而 panic；与 fmt 一样按 <nil> 处理
+		if val.Kind() == reflect.Ptr && val.IsNil() {
+			return "<nil>"
+		}
+
 		return vt.String()
 	}
 
-	val := reflect.ValueOf(v)
 	if val.Kind() == reflect.Ptr && !val.IsNil() {
 		val = val.Elem()
 	}
